@@ -35,6 +35,9 @@ type Config struct {
 	Auth              string   `json:"auth,omitempty"` // "" = allow-all, "none" = no auth hook, "perm" = permission table
 	Perm              *Perm    `json:"perm,omitempty"`
 	Scripts           []Script `json:"scripts,omitempty"` // scripted hooks (C19), registered in order after the auth hook
+	// ClientPIDBase: the harness's clients number their own packets from this value + 1 (default 0). Properties that
+	// are not about identifier collisions between the two directions set it high, away from the broker's 1, 2, 3, ...
+	ClientPIDBase uint16 `json:"client_pid_base,omitempty"`
 }
 
 // Perm is a generated permission relation: exact (client id, topic-or-filter string, write) triples, with a default.
@@ -145,6 +148,7 @@ type Action struct {
 	PID        uint16  `json:"pid,omitempty"`        // 0 = next fresh identifier of this connection
 	Retransmit int     `json:"retransmit,omitempty"` // >0: resend the own QoS>0 publish with this index (DUP, same tag)
 	PIDPool    int     `json:"pid_pool,omitempty"`   // >0: use the lowest identifier in 1..PIDPool that no unfinished own publish uses (skip if none)
+	Limit      int     `json:"limit,omitempty"`      // >0: skip a QoS>0 publish if the connection already has this many unfinished own QoS>0 publishes
 
 	// ack: Index selects among the connection's outstanding inbound messages (oldest first, modulo)
 	Index   int    `json:"index,omitempty"`
@@ -577,6 +581,25 @@ func (r *Run) Do(a Action) *Step {
 		if err := r.B.S.Publish(a.Topic, payload, a.Retain, a.QoS); err != nil {
 			s.Err = err.Error()
 		}
+	case "drain":
+		// from now on the connection acknowledges everything promptly, starting with what is outstanding
+		if p := r.peerFor(&a); p != nil {
+			s.Peer = p.ID
+			p.AutoAck = true
+			for _, m := range append([]*InMsg{}, p.In...) {
+				if ack := r.ackFor(p, m, 0); ack != nil {
+					r.send(p, ack, refmqtt.Style{})
+				}
+			}
+			for _, o := range p.Out {
+				if o.QoS == 2 && o.Stage == 1 {
+					o.Stage = 2
+					r.send(p, &refmqtt.Packet{Type: refmqtt.PUBREL, PacketID: o.PID}, refmqtt.Style{})
+				}
+			}
+		} else {
+			s.Skipped = true
+		}
 	case "pidcursor":
 		// move the broker's packet identifier cursor of the client's current connection (verif hook; reaches wrap-around cheaply)
 		if p := r.peerFor(&a); p != nil && p.Link.Client() != nil {
@@ -612,7 +635,7 @@ func (r *Run) doConnect(s *Step, a *Action) {
 	if ver == 0 {
 		ver = 4
 	}
-	p := &Peer{ID: len(r.Peers), Client: a.Client, CID: cid, Link: link, Version: ver, AutoAck: a.AutoAck, OpenedAt: s.I, ClosedAt: -1}
+	p := &Peer{ID: len(r.Peers), Client: a.Client, CID: cid, Link: link, Version: ver, AutoAck: a.AutoAck, OpenedAt: s.I, ClosedAt: -1, nextPID: r.Case.Cfg.ClientPIDBase}
 	if !a.Clean && a.RawConnect == nil {
 		// the client side of a resumed session remembers its unfinished exchanges (MQTT 4.1: the client's session state)
 		for i := len(r.Peers) - 1; i >= 0; i-- {
@@ -716,6 +739,10 @@ func (r *Run) doPublish(s *Step, a *Action) {
 			s.Skipped = true
 			return
 		}
+	}
+	if a.Limit > 0 && a.QoS > 0 && len(p.Out) >= a.Limit {
+		s.Skipped = true
+		return
 	}
 	r.tagSeq++
 	tag := r.tagSeq
